@@ -49,14 +49,18 @@ def gen(rng, tier, profile, count):
             npts = rng.randint(1, 3)
             pts = [rf(rng) for _ in range(npts)]
             qs = set()
+            free_points = rng.random() < 0.4    # a point label is only a name: the same name may go with several points
             for _ in range(rng.randint(0, 8)):
                 zl = rng.randrange(4)
-                qs.add((rng.choice(labels), zl, pts[zl % npts]))   # labels may share a point value
+                z = rng.choice(pts) if free_points else pts[zl % npts]
+                qs.add((rng.choice(labels), zl, z))   # labels may share a point value
             toks = []
             for (l, zl, z) in sorted(qs):
                 toks += [l, zl, z]
             c.set("qs", toks)
-            c.meta["shapes"] = ["eqs:q%d" % len(qs), "eqs:dup" if len(set(labels)) < npoly else "eqs:nodup"]
+            multi = len(set((l, zl) for (l, zl, z) in qs)) < len(qs)
+            c.meta["shapes"] = ["eqs:q%d" % len(qs), "eqs:dup" if len(set(labels)) < npoly else "eqs:nodup",
+                                "eqs:label-with-several-points" if multi else "eqs:one-point-per-label"]
         else:
             kmax = 10 if big else 8
             n = rng.choice([0, 1, 2, rng.randint(0, kmax), rng.randint(0, kmax)])
